@@ -171,7 +171,8 @@ class Ctx:
             'wall_s': round(time.time() - self.t0, 2),
             'violations': len(unknown),
         }
-        edir = os.path.join(VERIF, 'evidence')
+        # ids X.. are checks of behaviour beyond the listed properties (extras/README.md): their reports are kept apart
+        edir = os.path.join(VERIF, 'extras', 'evidence') if self.pid.startswith('X') else os.path.join(VERIF, 'evidence')
         os.makedirs(edir, exist_ok=True)
         with open(os.path.join(edir, self.pid + '.json'), 'w') as fh:
             json.dump(ev, fh, indent=1, default=str)
